@@ -826,7 +826,9 @@ class Interp:
         if isinstance(c, Adt) and c.ty.startswith('fnitem:'):
             return self.call(c.ty[7:], list(args), None)
         if isinstance(c, Adt) and c.ty.startswith('{closure@'):
-            return self.run(self.p.closure_fn(c.ty), [Ref(Cell(c))] + list(args))
+            f = self.p.closure_fn(c.ty)
+            byref = bool(f.params) and f.params[0][1].lstrip().startswith('&')
+            return self.run(f, [Ref(Cell(c)) if byref else c] + list(args))
         raise Unsupported('callable %r' % (c,))
 
     def call_closure_ref(self, cref, args):
@@ -841,7 +843,9 @@ class Interp:
                 r = inner
             else:
                 break
-        return self.run(self.p.closure_fn(c.ty), [r] + list(args))
+        f = self.p.closure_fn(c.ty)
+        byref = bool(f.params) and f.params[0][1].lstrip().startswith('&')
+        return self.run(f, [r if byref else c] + list(args))
 
     # ------------------------------------------------------------------ run
     def run(self, fn, args):
